@@ -23,6 +23,7 @@ type FuncResult struct {
 	Unsupported string
 	ContractErr string
 	Cover       *Oblig
+	PathCovers  []*Oblig // partial claims: one reachability cover per claimed obligation (its path must not be dead)
 	Frame       *Frame // top frame (parameters, entry state) for replay generators
 	Instrs      int
 }
@@ -35,6 +36,7 @@ type VerifyOpts struct {
 	NoContract bool // ignore the function's own contract clauses except nopanic-relevant loops
 	OnlyKinds  []string // keep only obligations of these kinds (the others belong to another property)
 	OnlyNames  []string // keep only obligations whose name contains one of these substrings (partial claim of a function)
+	PathCovers bool     // add a reachability cover per kept obligation (claims that leave out obligation kinds)
 	Sweep      bool // safety sweep: standing preconditions (non-nil pointer receiver, non-nil function parameters)
 }
 
@@ -61,6 +63,26 @@ func (e *Engine) VerifyFunc(fn *ssa.Function, opts VerifyOpts) (res *FuncResult)
 			}
 		}
 		res.Obligs = ctx.obligs
+		allObligs := ctx.obligs
+		defer func() {
+			if !(len(opts.OnlyNames) > 0 || opts.PathCovers) {
+				return
+			}
+			// the obligations this claim leaves out are ASSUMED on the paths behind them; an assumption that
+			// cannot hold where it is made (its goal is false on its path) kills the path and makes every
+			// claimed obligation behind it vacuous: each left-out obligation gets a cover showing that
+			// assuming it leaves its path alive
+			kept := map[*Oblig]bool{}
+			for _, o := range res.Obligs {
+				kept[o] = true
+			}
+			for _, o := range allObligs {
+				if kept[o] || o.Reach == nil || o.Cond == nil || o.Kind == "cover" || o.Cond.Op == "false" {
+					continue // (a constant-false goal is never assumed, see check)
+				}
+				res.PathCovers = append(res.PathCovers, &Oblig{Name: "cover:assumed:" + o.Name, Kind: "cover", Func: o.Func, CtxLen: o.CtxLen, Goal: Not(And(o.Reach, o.Cond)), Reach: o.Reach, Expect: "sat", ctx: ctx})
+			}
+		}()
 		if len(opts.OnlyKinds) > 0 {
 			var kept []*Oblig
 			for _, o := range ctx.obligs {
@@ -83,6 +105,17 @@ func (e *Engine) VerifyFunc(fn *ssa.Function, opts VerifyOpts) (res *FuncResult)
 				}
 			}
 			res.Obligs = kept
+		}
+		if len(opts.OnlyNames) > 0 || opts.PathCovers {
+			// a claim that leaves out some obligations of the function is proved assuming those hold; if one
+			// of them cannot hold, the paths behind it are dead and everything on them is vacuously true:
+			// every claimed obligation gets a cover showing that its own path is alive
+			for _, o := range res.Obligs {
+				if o.Reach == nil || o.Kind == "cover" {
+					continue
+				}
+				res.PathCovers = append(res.PathCovers, &Oblig{Name: "cover:" + o.Name, Kind: "cover", Func: o.Func, CtxLen: o.CtxLen, Goal: Not(o.Reach), Expect: "sat", ctx: ctx})
+			}
 		}
 	}()
 	ct := e.contractFor(fn)
